@@ -12,7 +12,9 @@ EVIDENCE = dict(
          "loaded with the real reader, and the loaded tables are validated by Trace_RVLinks (Consistent, equal "
          "up to trailing freed slots / same graph and in-link order for files without slot data). Random "
          "histories interleave connect requests with save/load and continue on the reloaded project. "
-         "non-trivial = the saved state has at least one link.",
+         "Added histories: 262 modules, 1100 cycles on one destination, hubs of 20-260 destinations (MultiCtl, MetaModule, Sampler "
+         "sources), the Output as a source, trailing empty positions; MC_RVSystem (focus gaps) explored exhaustively with its "
+         "transitions replayed by state injection. non-trivial = the saved state has at least one link.",
     explanation="states/transitions are those of the exhaustive bounded model; traces are real save/load round trips")
 
 
